@@ -1137,3 +1137,59 @@ fn k_push_clip_driver_1() { push_clip_driver(1); }
 #[kani::stub(Rasterizer::reset, reset_rec)]
 #[kani::stub(MaskSuperBlitter::new, super_blitter_sym)]
 fn k_push_clip_driver_2() { push_clip_driver(2); }
+
+// ------------------------------------------------------------------ surface to surface (C15)
+pub static mut CS_LOG: [(usize, usize, usize, usize); 4] = [(0, 0, 0, 0); 4]; // src offset (words), src len, dst offset (words), dst len
+pub static mut CS_N: usize = 0;
+pub static mut CS_BASE: (usize, usize) = (0, 0);
+fn cs_rec(src: &[u32], dst: &mut [u32]) {
+    unsafe {
+        if CS_N < 4 { CS_LOG[CS_N] = ((src.as_ptr() as usize - CS_BASE.0) / 4, src.len(), (dst.as_ptr() as usize - CS_BASE.1) / 4, dst.len()); }
+        CS_N += 1;
+    }
+}
+fn composite_surface_contract(dw: i32, dh: i32, sw: i32, sh: i32) {
+    let mut d = DrawTarget::new(dw, dh);
+    let s = DrawTarget::new(sw, sh);
+    let src_rect = any_rect(-1000, 1000);
+    let px: i32 = kani::any();
+    let py: i32 = kani::any();
+    kani::assume(px >= -1000 && px <= 1000 && py >= -1000 && py <= 1000);
+    unsafe { CS_N = 0; CS_BASE = (s.buf.as_ptr() as usize, d.buf.as_ptr() as usize); }
+    // transform / clip / layers are ignored: give them arbitrary values
+    d.transform = Transform::new(2., 0., 0., 2., 5., 5.);
+    d.composite_surface(&s, src_rect, IntPoint::new(px, py), |a: &[u32], b: &mut [u32]| cs_rec(a, b));
+    // reference: source pixel p lands on p + off, off = dst - src_rect.min
+    let (ox, oy) = (px - src_rect.min.x, py - src_rect.min.y);
+    let sr = isect(src_rect, intrect(0, 0, sw, sh));
+    let dr = isect(intrect(0, 0, dw, dh), intrect(sr.min.x + ox, sr.min.y + oy, sr.max.x + ox, sr.max.y + oy));
+    let n = unsafe { CS_N };
+    if sr.min.x >= sr.max.x || sr.min.y >= sr.max.y || dr.min.x >= dr.max.x || dr.min.y >= dr.max.y {
+        assert!(n == 0, "empty, inverted or disjoint rectangles: nothing is copied");
+    } else {
+        assert!(n == (dr.max.y - dr.min.y) as usize, "one row call per destination row of the block");
+        let mut k = 0;
+        while k < 4 {
+            if k < n {
+                let (so, sl, dof, dl) = unsafe { CS_LOG[k] };
+                let y = dr.min.y + k as i32;
+                assert!(sl == (dr.max.x - dr.min.x) as usize && dl == sl, "row slices have the block's width");
+                assert!(dof == (y * dw + dr.min.x) as usize, "destination pixel dst + (i, j)");
+                assert!(so == ((y - oy) * sw + (dr.min.x - ox)) as usize, "source pixel src_rect.min + (i, j)");
+            }
+            k += 1;
+        }
+    }
+    kani::cover!(n == 2 && src_rect.min.x == 1);
+    kani::cover!(n == 0);
+}
+// @ob id=K.composite_surface_32 props=C15,C07,C11 kind=bounded:dst=3x2,src=2x3 tier=quick timeout=900 fns=DrawTarget::composite_surface
+// @+ desc="composite_surface, destination 3x2, source 2x3, src_rect and dst symbolic in ±1000 (inside, overlapping, outside, empty, inverted): the row callback is called once per destination row of the block with equal-length slices pairing source pixel src_rect.min+(i,j) (limited to the source surface) with destination pixel dst+(i,j); pixels that would fall outside the destination are skipped; no other slice is handed out; no slice is out of range; transform ignored"
+#[kani::proof]
+#[kani::unwind(14)]
+fn k_composite_surface_32() { composite_surface_contract(3, 2, 2, 3); }
+// @ob id=K.composite_surface_zero props=C15,C07 kind=bounded:dst=0x2,src=2x0 tier=quick timeout=900 fns=DrawTarget::composite_surface
+// @+ desc="composite_surface with zero-sized destination / source: never a call, never a panic"
+#[kani::proof]
+#[kani::unwind(14)]
+fn k_composite_surface_zero() { composite_surface_contract(0, 2, 2, 0); }
